@@ -208,7 +208,7 @@ fn check_classes(pattern: &str, regex_type: RegexType) -> Result<(), Box<dyn Err
                                 let after = &inner[1 + end + 2..];
                                 let before = &members[..i];
                                 if delim == '='
-                                    && (before.ends_with('-') && !(first_members && before == "-")
+                                    && (ends_in_open_range(before, !first_members)
                                         || after.starts_with('-') && !after.starts_with("-]"))
                                 {
                                     return Err(From::from(format!(
@@ -237,6 +237,27 @@ fn check_classes(pattern: &str, regex_type: RegexType) -> Result<(), Box<dyn Err
         }
     }
     Ok(())
+}
+
+/// Whether the plain members of a bracket expression end in a "-" that is
+/// waiting for the end point of its range ("a-", "--": not "-" alone, which is
+/// a member, nor "!--", where the second "-" is the end point).  `has_start`:
+/// something stands before them that a range can start from.
+fn ends_in_open_range(members: &str, has_start: bool) -> bool {
+    let mut has_start = has_start;
+    let mut chars = members.chars().peekable();
+    while let Some(member) = chars.next() {
+        if member == '-' && has_start {
+            // An operator: with its end point, or waiting for one.
+            if chars.next().is_none() {
+                return true;
+            }
+            has_start = false;
+        } else {
+            has_start = true;
+        }
+    }
+    false
 }
 
 /// A back-reference to a group that is not complete where it stands - one that
